@@ -275,8 +275,16 @@ func (t *verifC07lT) vecAlways(name string, need int) []float64 {
 	return v
 }
 
-// ints: an integer slice (cell i holds i); exact: accept needs len == need; reject: len < need.
+// ints: an integer slice (cell i holds i); exact: accept needs len == need, otherwise len >= need;
+// reject: len < need.
 func (t *verifC07lT) ints(name string, need int, exact bool) []int {
+	return t.ints2(name, need, exact, false)
+}
+
+// intsStrict: documented as "must have length need, otherwise the routine will panic": reject len != need.
+func (t *verifC07lT) intsStrict(name string, need int) []int { return t.ints2(name, need, true, true) }
+
+func (t *verifC07lT) ints2(name string, need int, exact, strict bool) []int {
 	backing := make([]int, verifC07lCap)
 	for i := range backing {
 		backing[i] = i
@@ -288,7 +296,11 @@ func (t *verifC07lT) ints(name string, need int, exact bool) []int {
 	} else {
 		t.store = verifAnd(t.store, len(v) >= need)
 	}
-	t.short = verifOr(t.short, len(v) < need)
+	if strict {
+		t.short = verifOr(t.short, len(v) != need)
+	} else {
+		t.short = verifOr(t.short, len(v) < need)
+	}
 	return v
 }
 
@@ -430,7 +442,7 @@ func verifC07lGetrf(name string, call func(m, n int, a []float64, lda int, ipiv 
 	m, n := t.dim("m"), t.dim("n")
 	lda := t.ld("lda", verifC07lMax(1, n))
 	a := t.mat("a", m, n, lda)
-	ipiv := t.ints("ipiv", verifC07lMin(m, n), true)
+	ipiv := t.intsStrict("ipiv", verifC07lMin(m, n))
 	t.run(func() { call(m, n, a, *lda, ipiv) })
 }
 
@@ -615,7 +627,7 @@ func VerifC07_Dlaswp() {
 	t.need(verifOr(incX == 1, incX == -1))
 	lda := t.ld("lda", verifC07lMax(1, n))
 	a := t.mat("a", k2+1, n, lda)
-	ipiv := t.ints("ipiv", k2+1, true)
+	ipiv := t.intsStrict("ipiv", k2+1)
 	t.run(func() { verifC07lImpl.Dlaswp(n, a, *lda, k1, k2, ipiv, incX) })
 }
 
@@ -626,7 +638,7 @@ func VerifC07_Dlapmt() {
 	m, n := t.dim("m"), t.dim("n")
 	ldx := t.ld("ldx", verifC07lMax(1, n))
 	x := t.mat("x", m, n, ldx)
-	k := t.ints("k", n, true)
+	k := t.intsStrict("k", n)
 	t.run(func() { verifC07lImpl.Dlapmt(fw, m, n, x, *ldx, k) })
 }
 
@@ -637,7 +649,7 @@ func VerifC07_Dlapmr() {
 	m, n := t.dim("m"), t.dim("n")
 	ldx := t.ld("ldx", verifC07lMax(1, n))
 	x := t.mat("x", m, n, ldx)
-	k := t.ints("k", m, true)
+	k := t.intsStrict("k", m)
 	t.run(func() { verifC07lImpl.Dlapmr(fw, m, n, x, *ldx, k) })
 }
 
@@ -1043,7 +1055,7 @@ func VerifC07_Dgeqp3() {
 	m, n := t.dim("m"), t.dim("n")
 	lda := t.ld("lda", verifC07lMax(1, n))
 	a := t.mat("a", m, n, lda)
-	jpvt := t.ints("jpvt", n, true)
+	jpvt := t.intsStrict("jpvt", n)
 	tau := t.vecExact("tau", verifC07lMin(m, n), false)
 	min := 3*n + 1
 	if m <= 0 || n <= 0 {
